@@ -795,8 +795,8 @@ class Selector(cssutils.util.Base2):
     def _comments_out_of_names(self, tokenizer):
         """
         Comments between the tokens which make up ONE simple selector
-        (":" IDENT, "." IDENT, prefix "|" name) are moved in front of it,
-        they do not split it.
+        (":" IDENT, "." IDENT, prefix "|" name) are moved behind it, they do
+        not split it.
         """
         IDENT, FUNCTION = self._prods.IDENT, self._prods.FUNCTION
 
@@ -810,22 +810,28 @@ class Selector(cssutils.util.Base2):
             )
 
         tokens = list(tokenizer)
-        out = []
-        i = 0
-        while i < len(tokens):
-            j = i
-            while j < len(tokens) and tokens[j][0] == 'COMMENT':
-                j += 1
-            if i < j < len(tokens) and out and joined(out[-1], tokens[j]):
-                start = len(out) - 1
-                while start > 0 and joined(out[start - 1], out[start]):
-                    start -= 1
-                out[start:start] = tokens[i:j]
-                i = j
-            else:
-                out.append(tokens[i])
+
+        def nextother(i):
+            "index of the next token which is no comment"
+            while i < len(tokens) and tokens[i][0] == 'COMMENT':
                 i += 1
-        return out
+            return i
+
+        out, held = [], []
+        for i, t in enumerate(tokens):
+            j = nextother(i + 1)
+            if t[0] == 'COMMENT':
+                if out and j < len(tokens) and joined(out[-1], tokens[j]):
+                    # inside a name: kept until the name is complete
+                    held.append(t)
+                else:
+                    out.append(t)
+            else:
+                out.append(t)
+                if held and not (j < len(tokens) and joined(t, tokens[j])):
+                    out.extend(held)
+                    held = []
+        return out + held
 
     def _prepare_tokens(self, tokenizer):  # noqa: C901
         """
